@@ -355,7 +355,8 @@ Section WithUsers.
         end in
       match op with
       | [] =>
-        if mbit mode mArith && negb reserved then Ok (e, join_last fs name q)
+        if mbit mode mArith && negb reserved then
+          (if negb set && nounset then unset_err else Ok (e, join_last fs name q))
         else if set && negb null then param
         else if negb set && nounset then unset_err
         else Ok (e, fs)
